@@ -244,8 +244,17 @@ def store_map(ck, rule):
     # slice of the normaliser from the first top-level statement that mentions scale/bias
     body = fm.node.body
     start = None
+    helpers_ = [g for g in closure_funcs(prog, fm) if g is not fm and _mentions_scale(g.node)]
+
+    def _calls_scaling_helper(st):
+        for c in ast.walk(st):
+            if isinstance(c, ast.Call):
+                nm = c.func.attr if isinstance(c.func, ast.Attribute) else (c.func.id if isinstance(c.func, ast.Name) else None)
+                if nm and any(g.name == nm for g in helpers_):
+                    return True
+        return False
     for i, st in enumerate(body):
-        if _mentions_scale(st):
+        if _mentions_scale(st) or _calls_scaling_helper(st):
             start = i
             break
     if start is None:
@@ -278,7 +287,11 @@ def store_map(ck, rule):
                 o = oracle.subst(asg)
                 conj_false = [g for g in pf.guards if isinstance(g[0], ast.BoolOp) and _mentions_scale(g[0]) and not g[1]]
                 none_checks = [g for g in pf.guards if _mentions_scale(g[0]) and "None" in src(g[0]) and not isinstance(g[0], ast.BoolOp)]
-                if o == t or raw_true or asg.get(("b", "raw")) == Term.const(1) or conj_false or any(_none_unset(g) for g in none_checks):
+                def _reason(d_):
+                    # a disjunct that by itself justifies leaving the value alone: raw codes, or scale / bias unset
+                    return dotted(d_) == "raw" or (_mentions_scale(d_) and "None" in src(d_) and _none_unset((d_, True)))
+                or_true = [g for g in pf.guards if isinstance(g[0], ast.BoolOp) and isinstance(g[0].op, ast.Or) and g[1] and all(_reason(d_) for d_ in g[0].values)]
+                if o == t or raw_true or asg.get(("b", "raw")) == Term.const(1) or conj_false or or_true or any(_none_unset(g) for g in none_checks):
                     n_id += 1
                     continue
                 ck.bad(rule, fm, "storing v stores the quantization of (v - bias)/scale", "value returned untransformed under %s" % [(src(g[0])[:50], g[1]) for g in pf.guards if _mentions_scale(g[0]) or "raw" in src(g[0])], fm.node,
